@@ -130,10 +130,15 @@ impl<T> Deque<T> {
 pub fn persist_version(folder: &Path, version: &Version) -> (r: Result<(), Error>) { unimplemented!() }
 /// prelude: the atomic counter; its value is outside the Verus unit (checked by the Kani harness)
 #[verifier::external_body] pub struct SequenceNumberCounter { p: u8 }
+/// `drawn(c, s)`: s is a number this very step drew from the counter with identity c (only `next()` establishes it), so it exceeds
+/// every number the counter handed out before - in particular every snapshot seqno already open
+pub uninterp spec fn drawn(counter: int, s: SeqNo) -> bool;
 impl SequenceNumberCounter {
+    /// which underlying atomic the handle shares
+    pub uninterp spec fn id(&self) -> int;
     #[verifier::external_body] pub fn fetch_max(&self, seqno: SeqNo) { }
     /// TRUSTED (src/seqno.rs asserts it): the MSB is reserved, so a drawn seqno is < 2^63
-    #[verifier::external_body] pub fn next(&self) -> (r: SeqNo) ensures r < 0x8000_0000_0000_0000 { unimplemented!() }
+    #[verifier::external_body] pub fn next(&self) -> (r: SeqNo) ensures r < 0x8000_0000_0000_0000, drawn(self.id(), r) { unimplemented!() }
 }
 
 //@ FROM src/version/super_version.rs :: - :: struct SuperVersions
@@ -174,7 +179,7 @@ impl SuperVersions {
 //@ END
 
     // ---- near-verbatim (C02.4 / C16.1): history part ----
-//@ FROM src/version/super_version.rs :: impl SuperVersions :: fn upgrade_version :: OBL C02.4, C16.1
+//@ FROM src/version/super_version.rs :: impl SuperVersions :: fn upgrade_version :: OBL C02.4, C16.1, C02.14
 //@ SUBST `crate :: Result < ( ) >` ==> `Result<(), Error>`
 //@ SUBST `crate :: Result < SuperVersion >` ==> `Result<SuperVersion, Error>`
     fn upgrade_version<F: FnOnce(&SuperVersion) -> Result<SuperVersion, Error>>(
@@ -190,6 +195,8 @@ impl SuperVersions {
             r is Err ==> final(self).0.view() == old(self).0.view(),
             r is Ok ==> final(self).0.view().len() == old(self).0.view().len() + 1
                 && final(self).0.view().drop_last() == old(self).0.view()
+                // the new entry is stamped with a number freshly drawn from the given counter (C02.14)
+                && drawn(seqno.id(), final(self).0.view().last().seqno)
                 && (exists|sv: SuperVersion| #[trigger] call_ensures(f, (&old(self).0.view().last(),), Ok::<SuperVersion, Error>(sv)) && final(self).0.view().last().version == sv.version),/*-*/
     {
         self.upgrade_version_with_seqno(tree_path, f, seqno.next(), visible_seqno)
